@@ -314,6 +314,9 @@ pub struct XlsxBook {
     /// relationship id of every sheet (an NCName without XML-special characters; must differ from `rId<n+1>`, `rId<n+2>`
     /// used for styles / shared strings); `None` = `rId1`, `rId2`, … (C16)
     pub rel_ids: Option<Vec<String>>,
+    /// store the sheet parts in the archive in reverse tab order (a workbook whose tabs were re-ordered); the layout's
+    /// random shuffle of all parts may still apply on top (C16)
+    pub sheet_parts_reversed: bool,
 }
 
 impl Default for XlsxBook {
@@ -338,6 +341,7 @@ impl XlsxBook {
             workbook_tail_events: vec![],
             workbook_inert: vec![],
             rel_ids: None,
+            sheet_parts_reversed: false,
         }
     }
 }
@@ -1388,6 +1392,9 @@ impl XlsxBook {
         let rels = format!("<?xml version=\"1.0\" encoding=\"UTF-8\" standalone=\"yes\"?>\n{}", serialize(&rels_events, || true));
         parts.push(("xl/workbook.xml".into(), sc(&mut rng, &wb)));
         parts.push(("xl/_rels/workbook.xml.rels".into(), rels.into_bytes()));
+        if self.sheet_parts_reversed {
+            sheet_parts.reverse();
+        }
         parts.extend(sheet_parts);
         parts.push(("xl/styles.xml".into(), sc(&mut rng, &render_styles(self, l))));
         let mut sst_events = vec![];
